@@ -167,6 +167,8 @@ impl Property for C05 {
             let pos = s.idx(a.len() + 1);
             let c = match &big {
                 Some((k, zset)) if s.chance(1, 2) => { let i = 64 + s.below(36); if *zset { vec![b("ZADD"), k.clone(), b("XX"), b(&format!("{}.5", i)), b(&format!("m{:03}", i))] } else { vec![b("LSET"), k.clone(), b(&format!("{}", i)), b("changed")] } }
+                // the other client wipes the keyspace: a watched key that existed is gone, the transaction must abort
+                _ if s.chance(1, 8) => vec![b(if s.chance(1, 2) { "FLUSHALL" } else { "FLUSHDB" })],
                 _ => gen1(s, &mut g),
             };
             (pos, c)
@@ -329,7 +331,7 @@ impl Property for C05 {
                                 // with several shards a multi-key command (in the body or the foreign one) is itself a set of
                                 // per-shard round trips: the foreign command can land between them, which the placements above
                                 // (whole commands only) cannot express — the same missing isolation
-                                let fans_out = |c: &Cmd| { let n = String::from_utf8_lossy(&c[0]).to_uppercase(); matches!(n.as_str(), "KEYS" | "DBSIZE" | "SCAN" | "FLUSHDB") || (matches!(n.as_str(), "DEL" | "EXISTS" | "MGET" | "MSET") && c.len() > 2) };
+                                let fans_out = |c: &Cmd| { let n = String::from_utf8_lossy(&c[0]).to_uppercase(); matches!(n.as_str(), "KEYS" | "DBSIZE" | "SCAN" | "FLUSHDB" | "FLUSHALL") || (matches!(n.as_str(), "DEL" | "EXISTS" | "MGET" | "MSET") && c.len() > 2) };
                                 // (the watch check is one round trip per watched key, so a foreign fan-out command can also land
                                 // between the checks of two watched keys)
                                 let split_across_shards = shards > 1 && (fans_out(&oc) && (body.iter().any(|c| c.len() > 1) || watched.len() >= 2) || body.iter().any(|c| fans_out(c)));
